@@ -3,10 +3,10 @@
 use std::sync::Arc;
 
 use super::*;
-use crate::array::DataChunk;
+use crate::array::{ArrayImpl, DataChunk};
 use crate::catalog::{ColumnId, TableRefId};
 use crate::storage::{Storage, Table, Transaction};
-use crate::types::ColumnIndex;
+use crate::types::{ColumnIndex, ConvertError, DataValue};
 
 /// The executor of `insert` statement.
 pub struct InsertExecutor<S: Storage> {
@@ -42,7 +42,31 @@ impl<S: Storage> InsertExecutor<S> {
         let mut cnt = 0;
         #[for_await]
         for chunk in child {
-            let chunk = Evaluator::new(&expr).eval_list(&chunk?)?;
+            let source = chunk?;
+            let chunk = Evaluator::new(&expr).eval_list(&source)?;
+            // a fractional value must not be silently truncated into an integer column: the stored
+            // value has to convert back to the inserted one
+            for (col, array) in columns.iter().zip(chunk.arrays()) {
+                let Some(index) = self.column_ids.iter().position(|&id| id == col.id()) else {
+                    continue;
+                };
+                let src = source.array_at(index);
+                if matches!(src, ArrayImpl::Decimal(_) | ArrayImpl::Float64(_))
+                    && matches!(
+                        array,
+                        ArrayImpl::Int16(_) | ArrayImpl::Int32(_) | ArrayImpl::Int64(_)
+                    )
+                {
+                    let same = array.eq(src)?;
+                    if (0..same.len()).any(|i| same.get(i) == DataValue::Bool(false)) {
+                        return Err(ConvertError::Cast(
+                            "a value with a fractional part".into(),
+                            "an integer column",
+                        )
+                        .into());
+                    }
+                }
+            }
             // enforce NOT NULL (and PRIMARY KEY, which implies it): without this check a NULL is stored as
             // NULL by the memory engine and silently becomes 0 / '' in the non-nullable disk encoding
             for (col, array) in columns.iter().zip(chunk.arrays()) {
